@@ -508,3 +508,44 @@ twin("c18-twin-flag-eq1", "C18", (TALPY, "\t\tif (self.localVarsDefined):\n\t\t\
 twin("c05-twin-child-fstring", "C05", (DIR, '                    self.selectorbase + "/" + file,\n                    self.searchrequest,', '                    f"{self.selectorbase}/{file}",\n                    self.searchrequest,'))
 twin("c07-twin-filter-fstring", "C07", (DIR, '                    ignorepatt, self.selectorbase + "/" + file, file\n', '                    ignorepatt, f"{self.selectorbase}/{file}", file\n'))
 twin("c06-twin-writedir-local-entry", "C06", (SPAR, "            self.writedir(self.entry, handler.getdirlist())", "            entry = self.entry\n            self.writedir(entry, handler.getdirlist())"))
+
+twin("c07-twin-initfiles-comprehension", "C07", (DIR, """        for file in dirfiles:
+            try:
+                if self.prep_initfiles_canaddfile(
+                    ignorepatt, self.selectorbase + "/" + file, file
+                ):
+                    self.files.append(file)
+            except OSError:
+                # An unreadable entry must not take down the whole listing.
+                continue
+""", """        self.files = [
+            file
+            for file in dirfiles
+            if self.prep_initfiles_canaddfile(ignorepatt, self.selectorbase + "/" + file, file)
+        ]
+"""), note="comprehension form is equivalent for C07 (it does break C12: no per-entry containment)")
+fault("c12-initfiles-comprehension", "C12", "R12a", (DIR, """        for file in dirfiles:
+            try:
+                if self.prep_initfiles_canaddfile(
+                    ignorepatt, self.selectorbase + "/" + file, file
+                ):
+                    self.files.append(file)
+            except OSError:
+                # An unreadable entry must not take down the whole listing.
+                continue
+""", """        self.files = [
+            file
+            for file in dirfiles
+            if self.prep_initfiles_canaddfile(ignorepatt, self.selectorbase + "/" + file, file)
+        ]
+"""))
+fault("c10-getstate-truthy-filter", "C10", "R10e", (GE, "    def populatefromvfs(self, vfs: VFS_Real, selector: str) -> None:", "    def __getstate__(self):\n        return {k: v for k, v in self.__dict__.items() if v}\n\n    def populatefromvfs(self, vfs: VFS_Real, selector: str) -> None:"))
+twin("c10-twin-getstate-drop-config", "C10", (GE, "    def populatefromvfs(self, vfs: VFS_Real, selector: str) -> None:", "    def __getstate__(self):\n        state = dict(self.__dict__)\n        state.pop(\"config\", None)\n        return state\n\n    def populatefromvfs(self, vfs: VFS_Real, selector: str) -> None:"),
+     (DIR, "            self.fromcache = True\n            return True", "            for entry in self.fileentries:\n                entry.setconfig(self.config)\n            self.fromcache = True\n            return True"))
+fault("c04-wap-splitlines", "C04", "R04e", (WAP, "        while 1:\n            line = fakefile.readline().decode(errors=\"surrogateescape\")\n            if not len(line):\n                break\n            line = line.rstrip()", "        for line in fakefile.getvalue().decode(errors=\"surrogateescape\").splitlines():\n            line = line.rstrip()"))
+fault("c05-quote-helper-skips", "C05", "R05a", (HTTP, '            url = urllib.parse.quote(entry.getselector(), errors="surrogateescape")', "            url = self.quoteselector(entry.getselector())"),
+      (HTTP, "    def getrenderstr(self, entry, url):", "    def quoteselector(self, selector):\n        if \"%\" in selector:\n            return selector\n        return urllib.parse.quote(selector, errors=\"surrogateescape\")\n\n    def getrenderstr(self, entry, url):"))
+twin("c05-twin-quote-helper", "C05", (HTTP, '            url = urllib.parse.quote(entry.getselector(), errors="surrogateescape")', "            url = self.quoteselector(entry.getselector())"),
+     (HTTP, "    def getrenderstr(self, entry, url):", "    def quoteselector(self, selector):\n        return urllib.parse.quote(selector, errors=\"surrogateescape\")\n\n    def getrenderstr(self, entry, url):"))
+fault("c06-gemini-decode-before-split", "C06", "R06c", (GEM, "            url_parts = urllib.parse.urlparse(self.request.strip())", "            url_parts = urllib.parse.urlparse(urllib.parse.unquote(self.request.strip(), errors=\"surrogateescape\"))"))
+fault("c03-memo-cache", "C03", "R03d", (DIR, "class DirHandler(BaseHandler):\n", "_memo = {}\n\n\nclass DirHandler(BaseHandler):\n"), (DIR, "        self.prep_entries()\n        return True  # Did something.", "        self.prep_entries()\n        _memo[self.selector] = self.fileentries\n        return True  # Did something."))
